@@ -673,10 +673,12 @@ func (ex *Exec) sortSearch(st *State, frID int, n Term, c *ClosureV) Term {
 	return r
 }
 
-// sprintfConcat models fmt.Sprintf for a constant format that consists of literal text and %s
-// verbs whose arguments are strings or byte slices: the result is the concatenation. The
-// variadic arguments are recovered from the SSA shape (stores of MakeInterface values into the
-// argument array); anything else is left to the generic (unconstrained) treatment.
+// sprintfConcat models fmt.Sprintf for a constant format. A format made of literal text and %s
+// verbs over strings / byte slices is the concatenation; a format that also has %f (float) or %d
+// (integer) verbs is an uninterpreted function of its arguments, one function per format string
+// (injective in nothing: only "same arguments, same text" is known). The variadic arguments are
+// recovered from the SSA shape (stores of MakeInterface values into the argument array);
+// anything else is left to the generic (unconstrained) treatment.
 func (ex *Exec) sprintfConcat(st *State, frID int, cc *ssa.CallCommon) (Term, bool) {
 	fc, ok := cc.Args[0].(*ssa.Const)
 	if !ok || fc.Value == nil || fc.Value.Kind() != constant.String {
@@ -712,6 +714,38 @@ func (ex *Exec) sprintfConcat(st *State, frID int, cc *ssa.CallCommon) (Term, bo
 		}
 	}
 	fr := st.Frames[frID]
+	var args []Term
+	for i := int64(0); i < int64(len(argv)); i++ {
+		x, ok := argv[i]
+		if !ok {
+			return Term{}, false
+		}
+		switch kindOf(x.Type()) {
+		case KString, KInt, KFloat:
+			t, ok := ex.val(st, fr, x).(Term)
+			if !ok {
+				return Term{}, false
+			}
+			args = append(args, t)
+		case KSlice:
+			if !isByteSlice(x.Type()) {
+				return Term{}, false
+			}
+			sv, ok := ex.val(st, fr, x).(SliceV)
+			if !ok {
+				return Term{}, false
+			}
+			args = append(args, ex.content(st, sv))
+		default:
+			return Term{}, false
+		}
+	}
+	return ex.sprintfTerm(format, args)
+}
+
+// sprintfTerm builds the term for a format and already evaluated arguments (also used by the
+// contract builtin sprintf("format", args...)).
+func (ex *Exec) sprintfTerm(format string, args []Term) (Term, bool) {
 	var parts []Term
 	lit := ""
 	flush := func() {
@@ -720,7 +754,8 @@ func (ex *Exec) sprintfConcat(st *State, frID int, cc *ssa.CallCommon) (Term, bo
 			lit = ""
 		}
 	}
-	n := int64(0)
+	n := 0
+	onlyS := true
 	for i := 0; i < len(format); i++ {
 		if format[i] != '%' {
 			lit += string(format[i])
@@ -733,39 +768,36 @@ func (ex *Exec) sprintfConcat(st *State, frID int, cc *ssa.CallCommon) (Term, bo
 		switch format[i] {
 		case '%':
 			lit += "%"
-		case 's':
-			x, ok := argv[n]
-			n++
-			if !ok {
+		case 's', 'f', 'd':
+			if n >= len(args) {
 				return Term{}, false
+			}
+			a := args[n]
+			n++
+			want := map[byte]string{'s': SBytes, 'f': SF64, 'd': SInt}[format[i]]
+			if a.Sort != want {
+				return Term{}, false
+			}
+			if format[i] != 's' {
+				onlyS = false
 			}
 			flush()
-			switch kindOf(x.Type()) {
-			case KString:
-				t, ok := ex.val(st, fr, x).(Term)
-				if !ok || t.Sort != SBytes {
-					return Term{}, false
-				}
-				parts = append(parts, t)
-			case KSlice:
-				if !isByteSlice(x.Type()) {
-					return Term{}, false
-				}
-				sv, ok := ex.val(st, fr, x).(SliceV)
-				if !ok {
-					return Term{}, false
-				}
-				parts = append(parts, ex.content(st, sv))
-			default:
-				return Term{}, false
-			}
+			parts = append(parts, a)
 		default:
 			return Term{}, false
 		}
 	}
 	flush()
-	if n != int64(len(argv)) {
+	if n != len(args) {
 		return Term{}, false
+	}
+	if !onlyS {
+		sorts := make([]string, len(args))
+		for i, a := range args {
+			sorts[i] = a.Sort
+		}
+		f := ex.D.Fun("sprintf:"+format, sorts, SBytes)
+		return App(SBytes, f, args...), true
 	}
 	if len(parts) == 0 {
 		return ex.bytesLit(""), true
